@@ -28,12 +28,15 @@ def main():
              match(["n"], "==", "unk"), match(["m", "nilv"], "empty"),                                                 # resolves to nil: still resolves
              dict(match(["a"], "==", "1"), src="(((((a == 1)))))"), match(["ws"], "==", "str"), match(["pw", "0"], "==", "1"),
              {"t": "coll", "op": "any", "sel": {"ty": "bexpr", "path": ["List"]}, "mode": "default", "n1": "v", "n2": "",
-              "e": match(["v", "sec"], "==", "s3cr3t"), "val": "", "hv": False}]
+              "e": match(["v", "sec"], "==", "s3cr3t"), "val": "", "hv": False},
+             match(["nw"], "==", "dflt"), match(["opt", "W"], "==", "dflt"), match(["opt", "I"], "empty"), match(["pl", "0"], "!=", "dflt"), match(["opt", "S"], "==", "set")]   # hook that replaces nil
     probes = [{"e": 1, "d": idx["tagged"]}, {"e": 2, "d": idx["tagged"]}, {"e": 3, "d": idx["tagged"]}, {"e": 16, "d": idx["tagged"]},
               {"e": 4, "d": idx["wrapped"]}, {"e": 5, "d": idx["wrapped"]}, {"e": 6, "d": idx["wrapped"]},
               {"e": 7, "d": idx["absent"]}, {"e": 8, "d": idx["absent"]}, {"e": 9, "d": idx["absent"]}, {"e": 10, "d": idx["absent"]},
               {"e": 6, "d": idx["absent"]}, {"e": 11, "d": idx["absent"]}, {"e": 12, "d": idx["absent"]},
-              {"e": 13, "d": idx["absent"]}, {"e": 14, "d": idx["wrapped"]}, {"e": 15, "d": idx["wrapped"]}]
+              {"e": 13, "d": idx["absent"]}, {"e": 14, "d": idx["wrapped"]}, {"e": 15, "d": idx["wrapped"]},
+              {"e": 17, "d": idx["wrapped"]}, {"e": 18, "d": idx["wrapped"]}, {"e": 19, "d": idx["wrapped"]}, {"e": 20, "d": idx["wrapped"]}, {"e": 21, "d": idx["wrapped"]},
+              {"e": 11, "d": idx["absent"]}]
     wd = vlib.sub("c18")
     with open(os.path.join(wd, "exprs.json"), "w") as fh:
         json.dump(exprs, fh)
@@ -42,7 +45,7 @@ def main():
         raise vlib.Infra("could not measure parser steps: %s" % steps)
     unk = {c["name"]: c["unknown"] for c in data["cfgs"]}
     options = [{"o": "tag", "v": "bexpr", "n": ""}, {"o": "tag", "v": "json", "n": ""},
-               {"o": "hook", "v": "id", "n": ""}, {"o": "hook", "v": "unwrap", "n": ""}, {"o": "hook", "v": "none", "n": ""},
+               {"o": "hook", "v": "id", "n": ""}, {"o": "hook", "v": "unwrap", "n": ""}, {"o": "hook", "v": "none", "n": ""}, {"o": "hook", "v": "nildef", "n": ""},
                {"o": "unknown", "v": unk["unk-str"], "n": "str"}, {"o": "unknown", "v": unk["unk-empty"], "n": "empty"},
                {"o": "max", "v": 0, "n": ""}, {"o": "max", "v": steps[0] - 1, "n": ""}, {"o": "max", "v": max(steps), "n": ""}, {"o": "max", "v": 2 ** 30, "n": ""},
                {"o": "nil", "v": 0, "n": ""}]
